@@ -226,6 +226,25 @@ CHECKS["C10"] = dict(
          "stride-thinned and limited to <= 40 terminals; a trace rejected while the tree laws hold is binding drift (diagnostic).",
     technique="TLA+ specs ParserCursor (TLC exhaustive design model) + LexModel (TLC-enumerated input space replayed on the real lexer/parser) + ParserCursorTrace (TLC acceptor of real parses)",
     design_ref="3.7, 5/C10", engine="tlc+cvh")
+CHECKS["C11"] = dict(
+    level="model_checking",
+    text="FormatStream models a source file as the stream of its code tokens (with the syntactic facts that decide which are optional: "
+         "trailing comma of a list, empty terminal, statement semicolon, turbofish `::`, use/mod section membership) and comment words, and "
+         "formatting as a sequence of named layout-only actions (Keep, Drop/AddTrailingComma, DropEmpty, DropStmtSemicolon, "
+         "DropTurbofishColonColon, RewrapSplit/Join of comments, PermuteWithinSection and MergeUse only when the options are on); TLC checks "
+         "LayoutOnly on hand-written cases and a BUG variant. R: TLC enumerates FormatGeometry (construct x element count x width classes x "
+         "anchor x comment placement x trailing separator x layout x FormatterConfig lattice: 572k cases quick-sampled, 2.4M thorough, all "
+         "run); every case is rendered to Cairo and formatted by the real get_formatted_file. V: for geometry cases, every error-free corpus "
+         "source (repository .cairo files, formatter test inputs, e2e snippets) and seeded layout mutants of them (re-wrapped, re-indented, "
+         "comment-injected, stretched, one-lined) under the config lattice, the harness records the input's and the output's streams from the "
+         "real parse trees, whether f(f(t)) = f(t) and whether f(t) parses; FormatStreamTrace (TLC) accepts a case iff the output stream is "
+         "reachable from the input stream by the layout-only actions. Alarms: output has parser diagnostics, not idempotent, no accepting "
+         "path (token/comment dropped, added, changed, reordered), formatter panic.",
+    note="Three formatter defects found this way were repaired in /repo (fix: d88701a, 092efff, b11ba77; their minimal inputs are replayed in "
+         "every run without any known entry); the remaining idempotence defects around comments in unusual positions are known findings "
+         "(known_findings.json, classes keyed by the difference signature; all but one only for comment-injected mutants).",
+    technique="TLA+ specs FormatStream (TLC design model + BUG variant), FormatGeometry (TLC-enumerated input space replayed into the real formatter) and FormatStreamTrace (TLC acceptor of real format runs)",
+    design_ref="3.8, 5/C11", engine="tlc+cvh")
 CHECKS["C09"] = dict(
     level="model_checking",
     text="The input space of C10 (all strings / token soups enumerated by TLC from LexModel, corpus mutants, nesting probes at depth 200) is pushed "
@@ -284,7 +303,7 @@ def main():
     print("MANIFEST.json written:", len(checks), "checks,", len(na), "not_applicable")
 
 
-NA = {"C11": "the check is built (specs/FormatStream, check/c11.py) and finds genuine formatter defects on the unchanged tree; it is being triaged (fixes / known findings) and will be registered once it exits 0"}
+NA = {}
 HOOK_COMMITS = []
 
 if __name__ == "__main__":
